@@ -178,6 +178,7 @@ class ShapeDTW(BaseClassifier):
         self.knn.fit(X, y)
         self.classes_ = self.knn.classes_
 
+        self._is_fitted = True
         return self
 
     def _calculate_weighting_factor_value(self, X, y):
@@ -271,6 +272,7 @@ class ShapeDTW(BaseClassifier):
         output : numpy array of shape =
                 [n_instances, num_classes] of probabilities
         """
+        self.check_is_fitted()
         X = check_X(X, enforce_univariate=False)
 
         # Transform the test data in the same way as the training data.
@@ -291,6 +293,7 @@ class ShapeDTW(BaseClassifier):
         -------
         output : numpy array of shape = [n_instances]
         """
+        self.check_is_fitted()
         X = check_X(X, enforce_univariate=False)
 
         # Transform the test data in the same way as the training data.
